@@ -10,12 +10,13 @@
    discontinuity_indicator, pl = payload bytes.
    The operators AddStep / DumpNext are shared with the trace specification Mon_Acc.tla, which replays traces
    recorded from the real Demuxer (accumulator hook decisions, groups handed to a PacketsParser, PATs delivered). *)
-EXTENDS Integers, Sequences, FiniteSets
+EXTENDS Integers, Sequences, FiniteSets, TLC, Json
 
 CONSTANTS PIDS,       \* PIDs of the model-checked instance
           CCMOD,      \* 16 in the code; smaller in the model-checked instance
           PAYLOADS,   \* payload byte strings of the model-checked instance
           PATPIDS,    \* sets of PMT PIDs a delivered PAT may announce (Learn)
+          CCS,        \* continuity counter values offered to the model-checked instance (a subset of 0..CCMOD-1)
           MaxSteps
 
 Last(s) == s[Len(s)]
@@ -75,28 +76,36 @@ DumpNext(q) ==
        IN [pid |-> k, out |-> q[k], q |-> [x \in {y \in DOMAIN q : y > k} |-> q[x]]]
 
 \* ---- the model-checked system ------------------------------------------------
-VARIABLES q, pmap, out, lost, steps, ended
-vars == <<q, pmap, out, lost, steps, ended>>
+VARIABLES q, pmap, out, lost, steps, ended,
+          hist        \* the packets so far (history only: hidden by View; exported as a behaviour to replay into the real Demuxer)
+vars == <<q, pmap, out, lost, steps, ended, hist>>
 
 \* packets with payload: every combination; packets flagged transport_error or without payload: one payload each (they are dropped at the door)
-Packet == [pid : PIDS, cc : 0..(CCMOD - 1), pusi : BOOLEAN, hp : {TRUE}, tei : {FALSE}, disc : BOOLEAN, pl : PAYLOADS]
-          \cup [pid : PIDS, cc : 0..(CCMOD - 1), pusi : {FALSE}, hp : BOOLEAN, tei : BOOLEAN, disc : BOOLEAN, pl : {CHOOSE x \in PAYLOADS : TRUE}]
+PsiPids == {0} \cup UNION PATPIDS              \* the PIDs whose payload bytes can ever matter
+OnePayload == {CHOOSE x \in PAYLOADS : TRUE}
+Packet == [pid : PIDS \cap PsiPids, cc : CCS, pusi : BOOLEAN, hp : {TRUE}, tei : {FALSE}, disc : BOOLEAN, pl : PAYLOADS]
+          \cup [pid : PIDS \ PsiPids, cc : CCS, pusi : BOOLEAN, hp : {TRUE}, tei : {FALSE}, disc : BOOLEAN, pl : OnePayload]
+          \cup [pid : PIDS, cc : CCS, pusi : {FALSE}, hp : BOOLEAN, tei : BOOLEAN, disc : BOOLEAN, pl : OnePayload]
 
-Init == q = [k \in {} |-> <<>>] /\ pmap = {} /\ out = <<>> /\ lost = <<>> /\ steps = 0 /\ ended = FALSE
+Init == q = [k \in {} |-> <<>>] /\ pmap = {} /\ out = <<>> /\ lost = <<>> /\ steps = 0 /\ ended = FALSE /\ hist = <<>>
 
 Add(p) == /\ ~ended /\ steps < MaxSteps
           /\ LET r == AddStep(q, pmap, p) IN q' = r.q /\ out' = r.out /\ lost' = r.lost
-          /\ steps' = steps + 1
+          /\ steps' = steps + 1 /\ hist' = Append(hist, p)
           /\ UNCHANGED <<pmap, ended>>
 \* a PAT was delivered from the group just returned on PID 0
 Learn(S) == /\ ~ended /\ Parsed(out) /\ out[1].pid = 0
             /\ pmap' = pmap \cup S /\ out' = <<>>
-            /\ UNCHANGED <<q, lost, steps, ended>>
+            /\ UNCHANGED <<q, lost, steps, ended, hist>>
 Dump == /\ LET d == DumpNext(q) IN d.pid >= 0 /\ q' = d.q /\ out' = d.out
         /\ ended' = TRUE /\ lost' = <<>>
-        /\ UNCHANGED <<pmap, steps>>
+        /\ UNCHANGED <<pmap, steps, hist>>
 Next == (\E p \in Packet : Add(p)) \/ (\E S \in PATPIDS : Learn(S)) \/ Dump
 Spec == Init /\ [][Next]_vars
+
+View == <<q, pmap, out, lost, steps, ended>>
+\* one behaviour per explored Add transition: the packet sequence leading to it (replayed into the real Demuxer, harness/acc.go)
+ExportEdge == (hist' # hist) => PrintT("SCN " \o ToJson([pkts |-> hist']))
 
 \* ---- what parseData relies on ---------------------------------------------
 \* a run of packets with payload and without transport error, gap-free in the continuity counter, where only the first packet may
